@@ -126,6 +126,10 @@ func (x *Exec) verifyBody(fn *ssa.Function, c *Contract, res *FuncResult) {
 	penv.bindResultNames(fn, nil)
 	penv.frame = fr
 	penv.point = nil
+	var rspec *ReplaySpec
+	if len(c.Ensures) > 0 {
+		rspec = x.buildReplaySpec(fr, results, out)
+	}
 	for i, e := range c.Ensures {
 		f := func() string {
 			defer func() {
@@ -142,7 +146,7 @@ func (x *Exec) verifyBody(fn *ssa.Function, c *Contract, res *FuncResult) {
 		if e.Tag != "" {
 			name = fmt.Sprintf("%s#%s", fname, e.Tag)
 		}
-		x.addOblKF(&Obligation{Name: name, Kind: "post", Tag: e.Tag, Func: fname, Pos: fmt.Sprintf("%s:%d", shortPath(e.File), e.Line), Guard: out.guard, Formula: f, Src: e.Src}, penv)
+		x.addOblKF(&Obligation{Name: name, Kind: "post", Tag: e.Tag, Func: fname, Pos: fmt.Sprintf("%s:%d", shortPath(e.File), e.Line), Guard: out.guard, Formula: f, Src: e.Src, Replay: rspec}, penv)
 	}
 	// reachability of the normal exit (vacuity guard for postconditions)
 	if len(c.Ensures) > 0 {
